@@ -254,16 +254,19 @@ Proof.
 Qed.
 
 (* ---------- CheckMessage through the buffered bytes alone ---------- *)
+Definition v3 (a b c:Z) : Z := a + 256 * b + 65536 * c.
+Definition v4 (a b c e:Z) : Z := a + 256 * b + 65536 * c + 16777216 * e.
+
 Definition fin_pure (b:list Z) (sr t dl i:Z) : option msg :=
   if (dl >? MAXDATA) || negb (i + dl =? Z.of_nat (length b) - 1) then None else
-  Some {| pri := nth 2 b 0; pgn := nth 3 b 0 + 256 * nth 4 b 0 + 65536 * nth 5 b 0; dst := nth 6 b 0; src := sr; tim := t;
+  Some {| pri := nth 2 b 0; pgn := v3 (nth 3 b 0) (nth 4 b 0) (nth 5 b 0); dst := nth 6 b 0; src := sr; tim := t;
           data := firstn (Z.to_nat dl) (skipn (Z.to_nat i) b) |}.
 
 Definition check_pure (now d bs:Z) (b:list Z) : option msg :=
   if negb (Z.of_nat (length b) =? nth 1 b 0 + 3) then None else
   if negb ((if bs =? 0 then 0 else 256 - bs) mod 256 =? last b 0) then None else
   if nth 0 b 0 =? T_DATA then
-    fin_pure b (nth 7 b 0) (nth 8 b 0 + 256 * nth 9 b 0 + 65536 * nth 10 b 0 + 16777216 * nth 11 b 0) (nth 12 b 0) 13
+    fin_pure b (nth 7 b 0) (v4 (nth 8 b 0) (nth 9 b 0) (nth 10 b 0) (nth 11 b 0)) (nth 12 b 0) 13
   else fin_pure b d (now mod 4294967296) (nth 7 b 0) 8.
 
 Lemma skipn_nth_cons (l:list Z) : forall i, (i < length l)%nat -> skipn i l = nth i l 0 :: skipn (S i) l.
@@ -569,4 +572,130 @@ Proof.
   - intros now s l Hr Hl. destruct (reachable_run now s l Hr Hl) as [E Hr'].
     exists (fst (run' now s l)), (snd (run' now s l)). split; [|exact Hr'].
     rewrite E. destruct (run' now s l); reflexivity.
+Qed.
+
+(* ---------- the array contents beyond the write position are never observed ---------- *)
+Lemma step'_sim now s t x : same_visible s t ->
+  same_visible (fst (step' now s x)) (fst (step' now t x)) /\ snd (step' now s x) = snd (step' now t x).
+Proof.
+  destruct s as [c so e bf st sm d]. destruct t as [c2 so2 e2 bf2 st2 sm2 d2].
+  unfold same_visible. cbn [coming sot escd buf stale bsum dsrc].
+  intros (<- & <- & <- & <- & <- & <-).
+  unfold step', added, clear, with_flags, pos. cbn [coming sot escd buf stale bsum dsrc].
+  destruct c; destruct e; destruct (x =? ESC); destruct (x =? ETX); destruct (x =? STX); destruct so;
+    destruct (Z.of_nat (length bf) <? MAXBUF); cbn [fst snd coming sot escd buf stale bsum dsrc];
+    (split; [repeat split|reflexivity]).
+Qed.
+
+Lemma run'_sim now l : forall s t, same_visible s t ->
+  same_visible (fst (run' now s l)) (fst (run' now t l)) /\ snd (run' now s l) = snd (run' now t l).
+Proof.
+  induction l as [|x l IH]; intros s t H.
+  - cbn [run' fst snd]. split; [exact H|reflexivity].
+  - cbn [run' fst snd]. destruct (step'_sim now s t x H) as [H1 H2].
+    destruct (IH _ _ H1) as [H3 H4]. split; [exact H3|]. rewrite H2, H4. reflexivity.
+Qed.
+
+(* ---------- when is a message reported ---------- *)
+Lemma step'_report now s x m : snd (step' now s x) = Some m ->
+  x = ETX /\ coming s = true /\ escd s = true /\ fst (step' now s x) = clear s /\
+  check_pure now (dsrc s) (bsum s) (buf s) = Some m /\ (nth 0 (buf s) 0 = T_DATA \/ nth 0 (buf s) 0 = T_REQ).
+Proof.
+  unfold step'.
+  destruct (coming s).
+  - destruct (escd s).
+    + destruct (x =? ESC); [cbn [snd]; discriminate|].
+      destruct (Z.eqb_spec x ETX) as [E2|E2]; cbn [fst snd].
+      * destruct (Z.eqb_spec (nth 0 (buf s) 0) T_DATA) as [E3|E3]; cbn [orb].
+        -- intros H. repeat split; try assumption. left. exact E3.
+        -- destruct (Z.eqb_spec (nth 0 (buf s) 0) T_REQ) as [E4|E4]; [|discriminate].
+           intros H. repeat split; try assumption. right. exact E4.
+      * destruct (x =? STX); cbn [snd]; discriminate.
+    + destruct (x =? ESC); cbn [snd]; discriminate.
+  - destruct (x =? STX).
+    + destruct (escd s); cbn [snd]; discriminate.
+    + destruct (sot s); cbn [snd]; discriminate.
+Qed.
+
+(* ---------- check_pure against the format ---------- *)
+Lemma split_last (l:list Z) : forall k, length l = S k -> l = firstn k l ++ [last l 0].
+Proof.
+  induction l as [|x l IH]; intros k H; [cbn in H; lia|].
+  destruct l as [|y l'].
+  - cbn [length] in H. assert (k = 0)%nat by lia. subst k. reflexivity.
+  - destruct k as [|k']; [cbn [length] in H; lia|].
+    change (last (x :: y :: l') 0) with (last (y :: l') 0). cbn [firstn app].
+    f_equal. apply IH. cbn [length] in *. lia.
+Qed.
+
+Lemma sumx_last k a z : k = Z.of_nat (length a) -> sumx k (a ++ [z]) 0 = sum a.
+Proof.
+  intros ->. rewrite sumx_app. rewrite sumx_none by lia. cbn [sumx].
+  rewrite Z.add_0_l. rewrite Z.eqb_refl. lia.
+Qed.
+
+Lemma cksum_ok bs sa ck : bs mod 256 = sa mod 256 ->
+  ((if bs =? 0 then 0 else 256 - bs) mod 256 = ck <-> (0 <= ck < 256 /\ (sa + ck) mod 256 = 0)).
+Proof. intros H. destruct (Z.eqb_spec bs 0); lia. Qed.
+
+Lemma check_pure_sound now d bs c m : bytes c -> bs mod 256 = sumx (nth 1 c 0 + 2) c 0 mod 256 ->
+  (nth 0 c 0 = T_DATA \/ nth 0 c 0 = T_REQ) -> check_pure now d bs c = Some m -> consistent now d c m.
+Proof.
+  intros Hb Hs Hty. unfold check_pure.
+  destruct (Z.eqb_spec (Z.of_nat (length c)) (nth 1 c 0 + 3)) as [En|]; cbn [negb]; [|discriminate].
+  destruct (Z.eqb_spec ((if bs =? 0 then 0 else 256 - bs) mod 256) (last c 0)) as [Eck|]; cbn [negb]; [|discriminate].
+  pose proof (bytes_nth c 2 Hb) as B2. pose proof (bytes_nth c 3 Hb) as B3. pose proof (bytes_nth c 4 Hb) as B4.
+  pose proof (bytes_nth c 5 Hb) as B5. pose proof (bytes_nth c 6 Hb) as B6. pose proof (bytes_nth c 7 Hb) as B7.
+  pose proof (bytes_nth c 8 Hb) as B8. pose proof (bytes_nth c 9 Hb) as B9. pose proof (bytes_nth c 10 Hb) as B10.
+  pose proof (bytes_nth c 11 Hb) as B11. pose proof (bytes_nth c 12 Hb) as B12.
+  unfold T_DATA, T_REQ, MAXDATA in *.
+  destruct (Z.eqb_spec (nth 0 c 0) 147) as [E0|E0].
+  - unfold fin_pure, MAXDATA. destruct (Z.gtb_spec (nth 12 c 0) 223) as [|Hdl]; cbn [orb]; [discriminate|].
+    destruct (Z.eqb_spec (13 + nth 12 c 0) (Z.of_nat (length c) - 1)) as [El|]; cbn [negb]; [|discriminate].
+    intros [= <-].
+    destruct c as [|x0 [|x1 [|x2 [|x3 [|x4 [|x5 [|x6 [|x7 [|x8 [|x9 [|x10 [|x11 [|x12 r]]]]]]]]]]]]];
+      try (cbn [length nth] in *; lia).
+    change (Z.to_nat 13) with 13%nat. cbn [nth skipn] in *.
+    assert (Hlr : length r = S (Z.to_nat x12)) by (cbn [length] in El; lia).
+    pose proof (split_last r _ Hlr) as Hr.
+    assert (Hld : length (firstn (Z.to_nat x12) r) = Z.to_nat x12) by (rewrite firstn_length; lia).
+    set (dat := firstn (Z.to_nat x12) r) in *. set (ck := last r 0) in *. clearbody dat ck. subst r.
+    change (x0 :: x1 :: x2 :: x3 :: x4 :: x5 :: x6 :: x7 :: x8 :: x9 :: x10 :: x11 :: x12 :: dat ++ [ck])
+      with ([x0; x1; x2; x3; x4; x5; x6; x7; x8; x9; x10; x11; x12] ++ dat ++ [ck]) in *.
+    rewrite app_assoc in *. set (A := [x0; x1; x2; x3; x4; x5; x6; x7; x8; x9; x10; x11; x12] ++ dat) in *.
+    assert (HlA : Z.of_nat (length A) = 13 + x12) by (unfold A; rewrite app_length; cbn [length]; lia).
+    rewrite last_last in Eck. rewrite app_length in En. cbn [length] in En.
+    rewrite sumx_last in Hs by lia.
+    apply (cksum_ok bs (sum A) ck Hs) in Eck.
+    unfold consistent. cbn [pri pgn dst src tim data]. change (2 ^ 24) with 16777216. change (2 ^ 32) with 4294967296. unfold v3, v4.
+    split; [exact Hb|]. split; [rewrite sum_app; unfold sum at 2; cbn [fold_right]; lia|].
+    split; [lia|]. split; [lia|]. split; [lia|].
+    exists ck. left. unfold data_body. cbn [pri pgn dst src tim data le]. rewrite Hld. unfold v3, v4.
+    unfold A. rewrite <- !app_assoc. cbn [app].
+    repeat (f_equal; try lia).
+  - destruct Hty as [Hty|Hty]; [congruence|].
+    unfold fin_pure, MAXDATA. destruct (Z.gtb_spec (nth 7 c 0) 223) as [|Hdl]; cbn [orb]; [discriminate|].
+    destruct (Z.eqb_spec (8 + nth 7 c 0) (Z.of_nat (length c) - 1)) as [El|]; cbn [negb]; [|discriminate].
+    intros [= <-].
+    destruct c as [|x0 [|x1 [|x2 [|x3 [|x4 [|x5 [|x6 [|x7 r]]]]]]]];
+      try (cbn [length nth] in *; lia).
+    change (Z.to_nat 8) with 8%nat. cbn [nth skipn] in *.
+    assert (Hlr : length r = S (Z.to_nat x7)) by (cbn [length] in El; lia).
+    pose proof (split_last r _ Hlr) as Hr.
+    assert (Hld : length (firstn (Z.to_nat x7) r) = Z.to_nat x7) by (rewrite firstn_length; lia).
+    clear B8 B9 B10 B11 B12.
+    set (dat := firstn (Z.to_nat x7) r) in *. set (ck := last r 0) in *. clearbody dat ck. subst r.
+    change (x0 :: x1 :: x2 :: x3 :: x4 :: x5 :: x6 :: x7 :: dat ++ [ck])
+      with ([x0; x1; x2; x3; x4; x5; x6; x7] ++ dat ++ [ck]) in *.
+    rewrite app_assoc in *. set (A := [x0; x1; x2; x3; x4; x5; x6; x7] ++ dat) in *.
+    assert (HlA : Z.of_nat (length A) = 8 + x7) by (unfold A; rewrite app_length; cbn [length]; lia).
+    rewrite last_last in Eck. rewrite app_length in En. cbn [length] in En.
+    rewrite sumx_last in Hs by lia.
+    apply (cksum_ok bs (sum A) ck Hs) in Eck.
+    unfold consistent. cbn [pri pgn dst src tim data]. change (2 ^ 24) with 16777216. change (2 ^ 32) with 4294967296. unfold v3, v4.
+    split; [exact Hb|]. split; [rewrite sum_app; unfold sum at 2; cbn [fold_right]; lia|].
+    split; [lia|]. split; [lia|]. split; [lia|].
+    exists ck. right. split; [|split; reflexivity]. unfold req_body. cbn [pri pgn dst src tim data le]. rewrite Hld. unfold v3, v4.
+    unfold A. rewrite <- !app_assoc. cbn [app].
+    repeat (f_equal; try lia).
 Qed.
